@@ -154,6 +154,7 @@ type ExtBehav struct {
 	Set    []uint32 `json:"set,omitempty"`
 	Reset  []uint32 `json:"reset,omitempty"`
 	Lang   string   `json:"lang,omitempty"` // content is this string (language switch attempt)
+	Uni    bool     `json:"uni,omitempty"`  // pad with multi-byte UTF-8 characters (lengths stay byte lengths)
 }
 
 // ExtSym is an external symbol with its declared size and script (cycled by call index).
@@ -290,7 +291,7 @@ func Content(sym string, k int, inputDigest byte, b *ExtBehav) string {
 	if b.Sink || b.Rows != nil {
 		rows := make([]string, len(b.Rows))
 		for i, l := range b.Rows {
-			rows[i] = padTo(fmt.Sprintf("r%d.%d.%s", i, k, sym), l)
+			rows[i] = padToU(fmt.Sprintf("r%d.%d.%s", i, k, sym), l, b.Uni)
 		}
 		return strings.Join(rows, "\n")
 	}
@@ -298,7 +299,25 @@ func Content(sym string, k int, inputDigest byte, b *ExtBehav) string {
 	if b.Len < 0 {
 		return tag
 	}
-	return padTo(tag, b.Len)
+	return padToU(tag, b.Len, b.Uni)
+}
+
+// padToU is padTo with optional multi-byte padding; the result is exactly l BYTES long.
+func padToU(tag string, l int, uni bool) string {
+	if !uni || l <= len(tag)+1 {
+		return padTo(tag, l)
+	}
+	var sb strings.Builder
+	sb.WriteString(tag)
+	rest := l - len(tag)
+	if rest%2 == 1 {
+		sb.WriteByte('x')
+		rest--
+	}
+	for ; rest > 0; rest -= 2 {
+		sb.WriteString("ø")
+	}
+	return sb.String()
 }
 
 func padTo(tag string, l int) string {
